@@ -236,8 +236,9 @@ def run(chk):
         "Coq 8.16.1 kernel + vm_compute; Coq-Interval (BigZ floats, 80 bits) for the enclosure of 1/2 ln ratio",
         "Model/Gauss.v tied to the implementation by correspondence only (no translator on these anchors)",
         "np.corrcoef / np.linalg.slogdet rounding is covered by the property's tolerance (1e-8 + 1e-8|v|), not by proof",
-        "the identification of the executable list model's determinant form with its residual form is TESTED (required equal "
-        "in Q on every sample inside Coq) and proved only at the mathcomp matrix level (GaussMx.v)",
+        "the identification of the executable list model's determinant form with its residual forms is PROVED for every sample and block "
+        "size (GaussBridge.v / GaussResidBridge.v, Properties/C08Mx.v LIST MODEL: ratio_det = Some q -> ratio_res = ratio_seq = Some q) by "
+        "transporting GaussMx.v through a list <-> 'M[rat] refinement; it is still evaluated in Q on the samples inside Coq",
         "harness/props/C08.py: dyadic sample generation (floats are exactly ints * 2^e), exact Fraction reference, numpy lstsq reference"]
     chk.assumptions += ["non-degenerate samples: N > dim + 1, condition number of the joint correlation matrix <= 1e6",
                         "sample values on a dyadic grid (every finite float is such a value; the grid keeps the Coq terms small)"]
